@@ -1537,6 +1537,8 @@ class Method:
                 "createchannel",
                 "grpcchannel",
                 "operationsclient",
+                "close",
+                "kind",
             },
             keyword.kwlist,
         )
